@@ -1,4 +1,5 @@
 import SlipVerif.Lemmas.PrinterStruct
+import SlipVerif.Lemmas.PrinterFloat
 /- C03: the structural round-trip lemma (core only) -/
 namespace SlipVerif.Printer
 open SlipVerif.Gen
@@ -200,6 +201,13 @@ theorem struct_roundtrip (hT : TablesOK) (cfg : PCfg) (hC : CfgOK cfg) :
       simp only [printFlat, recase]
       exact read1_printSym hT cfg name hwf.1 hwf.2 rest hrest f
     exact ⟨hP, qread_atom hT cfg (.sym name) (by simp [printTail, printFlat]) (by simp [recase, tailElems]) hP⟩
+  | flt ff neg ds e =>
+    have hP : PRead cfg (.flt ff neg ds e) := by
+      intro hwf rest fuel hrest hfuel
+      obtain ⟨f, rfl⟩ : ∃ f, fuel = f + 1 := ⟨fuel - 1, by simp [osize] at hfuel; omega⟩
+      simp only [printFlat, recase]
+      exact read1_printFloat hT cfg hC.readably ff neg ds e hwf rest hrest f
+    exact ⟨hP, qread_atom hT cfg (.flt ff neg ds e) (by simp [printTail, printFlat]) (by simp [recase, tailElems]) hP⟩
   | cons a d iha ihd =>
     constructor
     · intro hwf rest fuel hrest hfuel
@@ -324,6 +332,31 @@ theorem printSym_len (cfg : PCfg) (name : List Char) : 1 ≤ (printSym cfg name)
     | nil => simp [needsBar] at h
     | cons c r => rw [caseName_len]; simp
 
+theorem printFloat_len (cfg : PCfg) (f : FFmt) (neg : Bool) (ds : List Nat) (e : Int) :
+    1 ≤ (printFloat cfg f neg ds e).length := by
+  have hm : ∀ ds, 1 ≤ (mantText ds).length := by
+    intro ds
+    cases ds with
+    | nil => simp [mantText]
+    | cons d r => cases r <;> simp [mantText]
+  have hE : ∀ m, 1 ≤ (floatE m neg ds e).length := by
+    intro m
+    have := hm ds
+    simp [floatE]; omega
+  unfold printFloat
+  split
+  · exact hE _
+  · split
+    · exact hE _
+    · unfold floatF
+      cases ds with
+      | nil => simp
+      | cons d r =>
+        simp only
+        split
+        · simp; omega
+        · split <;> simp <;> omega
+
 theorem size_le_length (hT : TablesOK) (cfg : PCfg) (hC : CfgOK cfg) : ∀ x : Obj,
     (WF x → osize x ≤ (printFlat cfg x).length) ∧ (WF x → osize x ≤ (printTail cfg x).length) := by
   intro x
@@ -338,6 +371,7 @@ theorem size_le_length (hT : TablesOK) (cfg : PCfg) (hC : CfgOK cfg) : ∀ x : O
     · intro hwf; have := printChr_len hT c hwf; simp [osize, printFlat]; omega
     · intro _; simp [osize, printTail]
   | sym name => have := printSym_len cfg name; simp [osize, printFlat, printTail]; omega
+  | flt ff neg ds e => have := printFloat_len cfg ff neg ds e; simp [osize, printFlat, printTail]; omega
   | cons a d iha ihd =>
     constructor
     · intro hwf
